@@ -45,6 +45,12 @@ theorem app2_cx (a b c d e f g h : α) :
   simp only [app2, bd2, matCX, embed, agreeOff, subIndex, qbit, LMat.get, LMat.mul, LMat.transpose, LMat.dot]
   simp [List.range_succ]
 
+theorem matCX_bd : (matCX : LMat α) = bd2 1 0 0 1 0 1 1 0 := rfl
+
+/-- `cx control, target`, with the matrix of `cx` written as a block matrix -/
+theorem app2_cx' (a b c d e f g h : α) :
+    app2 [0, 1] (bd2 1 0 0 1 0 1 1 0) (bd2 a b c d e f g h) = bd2 a b c d g h e f := app2_cx a b c d e f g h
+
 /-- a diagonal one-qubit gate `diag(1, k)` on the control -/
 theorem app2_control (k a b c d e f g h : α) :
     app2 [0] [[1, 0], [0, k]] (bd2 a b c d e f g h) = bd2 a b c d (k * e) (k * f) (k * g) (k * h) := by
@@ -89,33 +95,40 @@ theorem seqFrom_eq (k : Nat) (apps : List (String × List P × List Nat)) (acc :
     | none => rfl
     | some m => exact ih _
 
+theorem seqFrom2_cons {g : String} {vals : List P} {qs : List Nat} {rest : List (String × List P × List Nat)}
+    {acc m : LMat α} (hm : gateMatrix (α := α) defaultFuel g vals = some m) :
+    seqFrom 2 ((g, vals, qs) :: rest) acc = seqFrom 2 rest (app2 qs m acc) := by
+  simp [seqFrom, hm, app2]
+
+theorem seqFrom_nil (k : Nat) (acc : LMat α) : seqFrom (P := P) k [] acc = some acc := rfl
+
 theorem seqMatrix_eq (k : Nat) (apps : List (String × List P × List Nat)) :
     seqMatrix (α := α) k apps = seqFrom k apps (LMat.identity (2 ^ k)) := seqFrom_eq k apps _
 
-theorem gm_cx : gateMatrix (α := α) (P := P) 6 "cx" [] = some (app2 [0, 1] matCX I4) := by rfl
-theorem gm_s : gateMatrix (α := α) (P := P) 6 "s" [] = some (wrap1 (wrap1 (matU (z0 : P) z0 halfPi))) := by rfl
-theorem gm_sdg : gateMatrix (α := α) (P := P) 6 "sdg" [] =
+theorem gm_cx : gateMatrix (α := α) (P := P) defaultFuel "cx" [] = some (app2 [0, 1] matCX I4) := by rfl
+theorem gm_s : gateMatrix (α := α) (P := P) defaultFuel "s" [] = some (wrap1 (wrap1 (matU (z0 : P) z0 halfPi))) := by rfl
+theorem gm_sdg : gateMatrix (α := α) (P := P) defaultFuel "sdg" [] =
     some (wrap1 (wrap1 (matU (z0 : P) z0 (Angle.neg halfPi)))) := by rfl
-theorem gm_ry (x : P) : gateMatrix (α := α) 6 "ry" [x] = some (wrap1 (wrap1 (matU x z0 z0))) := by rfl
-theorem gm_u3 (a b c : P) : gateMatrix (α := α) 6 "u3" [a, b, c] = some (wrap1 (matU a b c)) := by rfl
+theorem gm_ry (x : P) : gateMatrix (α := α) defaultFuel "ry" [x] = some (wrap1 (wrap1 (matU x z0 z0))) := by rfl
+theorem gm_u3 (a b c : P) : gateMatrix (α := α) defaultFuel "u3" [a, b, c] = some (wrap1 (matU a b c)) := by rfl
 
 theorem cxM_eq : app2 [0, 1] (matCX : LMat α) I4 = matCX := by
   simp only [app2, I4, matCX, embed, agreeOff, subIndex, qbit, LMat.get, LMat.mul, LMat.transpose, LMat.dot, LMat.identity]
   simp [List.range_succ]
 
 set_option maxHeartbeats 400000 in
-theorem gm_crz (l : P) : gateMatrix (α := α) 6 "crz" [l] =
+theorem gm_crz (l : P) : gateMatrix (α := α) defaultFuel "crz" [l] =
     some (app2 [0, 1] (app2 [0, 1] matCX I4) (app2 [1] (wrap1 (matU z0 z0 (Angle.neg (Angle.div l two))))
         (app2 [0, 1] (app2 [0, 1] matCX I4) (app2 [1] (wrap1 (matU z0 z0 (Angle.div l two))) I4)))) := by rfl
 
 set_option maxHeartbeats 400000 in
-theorem gm_cu1 (l : P) : gateMatrix (α := α) 6 "cu1" [l] =
+theorem gm_cu1 (l : P) : gateMatrix (α := α) defaultFuel "cu1" [l] =
     some (app2 [1] (wrap1 (matU z0 z0 (Angle.div l two)))
       (app2 [0, 1] (app2 [0, 1] matCX I4) (app2 [1] (wrap1 (matU z0 z0 (Angle.neg (Angle.div l two))))
         (app2 [0, 1] (app2 [0, 1] matCX I4) (app2 [0] (wrap1 (matU z0 z0 (Angle.div l two))) I4))))) := by rfl
 
 set_option maxHeartbeats 400000 in
-theorem gm_cu3 (t p l : P) : gateMatrix (α := α) 6 "cu3" [t, p, l] =
+theorem gm_cu3 (t p l : P) : gateMatrix (α := α) defaultFuel "cu3" [t, p, l] =
     some (app2 [1] (wrap1 (matU (Angle.div t two) p z0))
       (app2 [0, 1] (app2 [0, 1] matCX I4)
         (app2 [1] (wrap1 (matU (Angle.neg (Angle.div t two)) z0 (Angle.neg (Angle.div (Angle.add p l) two))))
@@ -144,6 +157,13 @@ theorem libMeaning_of2 {name : String} {ps : List (QParam P)} (apps : List (Stri
   | some t =>
     simp only [h, Option.map_some, Option.some.injEq] at h1
     simp [h2, h1, seqMatrix_eq, I4]
+
+theorem libMeaning_single2 {name : String} {ps : List (QParam P)} {g : String} {vals : List P} {m : LMat α}
+    (h1 : (lookupTpl libTable name).map (·.nbits) = some 2)
+    (h2 : libApps libTable name ps = some [(g, vals, [0, 1])])
+    (hm : gateMatrix (α := α) defaultFuel g vals = some m) :
+    libMeaning (α := α) libTable name ps = some (app2 [0, 1] m I4) := by
+  rw [libMeaning_of2 _ h1 h2, seqFrom2_cons hm, seqFrom_nil]
 
 /-! ### one-qubit matrices in closed form -/
 
@@ -189,17 +209,109 @@ theorem expi_div_two (x : P) : (OQ2.expi (Angle.div x two) : α) =
     Amp.cos (Amp.phalf α x) + Amp.I P * Amp.sin (Amp.phalf α x) := by
   simp only [OQ2.expi, ha.cos_div_two, ha.sin_div_two]
 
+omit ha in
+theorem spec_RZ (l : P) : (specMatrix (.RZ l) : LMat α) =
+    [[Amp.cos (Amp.phalf α l) - Amp.I P * Amp.sin (Amp.phalf α l), 0],
+     [0, Amp.cos (Amp.phalf α l) + Amp.I P * Amp.sin (Amp.phalf α l)]] := by
+  simp [specMatrix, rot, pauliZ, LMat.get, List.range_succ]
+
+omit ha in
+theorem spec_RX (t : P) : (specMatrix (.RX t) : LMat α) =
+    [[Amp.cos (Amp.phalf α t), -(Amp.I P * Amp.sin (Amp.phalf α t))],
+     [-(Amp.I P * Amp.sin (Amp.phalf α t)), Amp.cos (Amp.phalf α t)]] := by
+  simp [specMatrix, rot, pauliX, LMat.get, List.range_succ]
+
+omit ha in
+theorem spec_RY (t : P) : (specMatrix (.RY t) : LMat α) =
+    [[Amp.cos (Amp.phalf α t), -Amp.sin (Amp.phalf α t)],
+     [Amp.sin (Amp.phalf α t), Amp.cos (Amp.phalf α t)]] := by
+  simp [specMatrix, rot, pauliY, LMat.get, List.range_succ]
+  have hI := h.I_mul_I
+  refine ⟨?_, ?_⟩ <;> grind
+
 /-- `CRZ(λ)` is exported as `crz(λ)`, whose body is exactly the controlled `RZ(λ)` -/
 theorem crz_ok (l : P) : LibGateOK α P libTable "CRZ" [l] := by
-  refine ⟨_, .C (.RZ l), libMeaning_of2 _ rfl (apps_CRZ l), rfl, PhaseEq.of_eq h ?_⟩
-  simp only [seqFrom, gm_crz, Option.bind, wrap1_matU, matU_diag h ha, cxM_eq, I4_eq, app2_target, app2_cx]
+  refine ⟨_, .C (.RZ l), libMeaning_single2 rfl (apps_CRZ l) (gm_crz l), rfl, PhaseEq.of_eq h ?_⟩
+  simp only [wrap1_matU, wrap1_two, matU_diag h ha, cxM_eq]
+  rw [I4_eq]
+  simp only [app2_target, app2_cx]
   rw [← I4_eq, app2_both]
-  simp only [specMatrix, rot, pauliZ, LMat.get, List.range_succ, ctrl_two]
-  have e := expi_mul_neg h ha (Angle.div l two)
-  rw [expi_neg h ha, expi_div_two h ha] at e
-  simp
-  refine bd2_ext ?_ ?_ ?_ ?_ ?_ ?_ ?_ ?_ <;>
-    simp only [expi_neg h ha, expi_div_two h ha, ha.cos_div_two, ha.sin_div_two] <;> grind
+  have hp := h.cos_sq_add_sin_sq (Amp.phalf α l)
+  have hI := h.I_mul_I
+  show _ = Spec.ctrl (specMatrix (.RZ l))
+  rw [spec_RZ h, ctrl_two]
+  simp only [expi_neg h ha, expi_div_two h ha, ha.cos_div_two, ha.sin_div_two]
+  refine bd2_ext ?_ ?_ ?_ ?_ ?_ ?_ ?_ ?_ <;> grind
+
+omit ha in
+theorem spec_U1 (l : P) : (specMatrix (.U1 l) : LMat α) =
+    [[1, 0], [0, Amp.cos l + Amp.I P * Amp.sin l]] := by
+  simp [specMatrix, Spec.expi]
+
+include hh in
+/-- `CU1(λ)` is exported as `cu1(λ)`, whose body is the controlled `U1(λ)` -/
+theorem cu1_ok (l : P) : LibGateOK α P libTable "CU1" [l] := by
+  refine ⟨_, .C (.U1 l), libMeaning_single2 rfl (apps_CU1 l) (gm_cu1 l), rfl, PhaseEq.of_eq h ?_⟩
+  simp only [wrap1_matU, wrap1_two, matU_diag h ha, cxM_eq]
+  rw [I4_eq]
+  simp only [app2_target, app2_cx, app2_control]
+  rw [← I4_eq, app2_both]
+  have hp := h.cos_sq_add_sin_sq (Amp.phalf α l)
+  have hI := h.I_mul_I
+  have hc := hh.cos_phalf_twice l
+  have hs := hh.sin_phalf_twice l
+  rw [h.cos_padd] at hc
+  rw [h.sin_padd] at hs
+  show _ = Spec.ctrl (specMatrix (.U1 l))
+  rw [spec_U1 h, ctrl_two]
+  simp only [expi_neg h ha, expi_div_two h ha, ha.cos_div_two, ha.sin_div_two]
+  refine bd2_ext ?_ ?_ ?_ ?_ ?_ ?_ ?_ ?_ <;> grind
+
+include hh ha2 in
+/-- `CRY(θ)` is exported as `cx; u3(-θ/2, 0, 0); cx; u3(θ/2, 0, 0)`: exactly the controlled `RY(θ)` -/
+theorem cry_ok (t : P) : LibGateOK α P libTable "CRY" [t] := by
+  have hm : libMeaning (α := α) libTable "CRY" [.direct t] =
+      some (app2 [1] (wrap1 (matU (Angle.div t two) z0 z0)) (app2 [0, 1] (app2 [0, 1] matCX I4)
+        (app2 [1] (wrap1 (matU (Angle.div (Angle.neg t) two) z0 z0)) (app2 [0, 1] (app2 [0, 1] matCX I4) I4)))) := by
+    rw [libMeaning_of2 _ rfl (apps_CRY t), seqFrom2_cons gm_cx, seqFrom2_cons (gm_u3 _ _ _), seqFrom2_cons gm_cx,
+      seqFrom2_cons (gm_u3 _ _ _), seqFrom_nil]
+  refine ⟨_, .C (.RY t), hm, rfl, PhaseEq.of_eq h ?_⟩
+  simp only [wrap1_matU, wrap1_two, matU_rot h ha, cxM_eq, ha2.qn_cos, ha2.qn_sin]
+  simp only [ha2.q_cos, ha2.q_sin, matCX_bd]
+  simp only [app2_target, app2_cx']
+  have hp := h.cos_sq_add_sin_sq (Amp.phalf α (Amp.phalf α t))
+  have hc := hh.cos_phalf_twice (Amp.phalf α t)
+  have hs := hh.sin_phalf_twice (Amp.phalf α t)
+  rw [h.cos_padd] at hc
+  rw [h.sin_padd] at hs
+  show _ = Spec.ctrl (specMatrix (.RY t))
+  rw [spec_RY h, ctrl_two]
+  refine bd2_ext ?_ ?_ ?_ ?_ ?_ ?_ ?_ ?_ <;> grind
+
+include hh ha2 in
+/-- `CRX(θ)` is exported as `s; cx; ry(-θ/2); cx; ry(θ/2); sdg`: exactly the controlled `RX(θ)` -/
+theorem crx_ok (t : P) : LibGateOK α P libTable "CRX" [t] := by
+  have hm : libMeaning (α := α) libTable "CRX" [.direct t] =
+      some (app2 [1] (wrap1 (wrap1 (matU (z0 : P) z0 (Angle.neg halfPi))))
+        (app2 [1] (wrap1 (wrap1 (matU (Angle.div t two) z0 z0))) (app2 [0, 1] (app2 [0, 1] matCX I4)
+          (app2 [1] (wrap1 (wrap1 (matU (Angle.div (Angle.neg t) two) z0 z0))) (app2 [0, 1] (app2 [0, 1] matCX I4)
+            (app2 [1] (wrap1 (wrap1 (matU (z0 : P) z0 halfPi))) I4)))))) := by
+    rw [libMeaning_of2 _ rfl (apps_CRX t), seqFrom2_cons gm_s, seqFrom2_cons gm_cx, seqFrom2_cons (gm_ry _),
+      seqFrom2_cons gm_cx, seqFrom2_cons (gm_ry _), seqFrom2_cons gm_sdg, seqFrom_nil]
+  refine ⟨_, .C (.RX t), hm, rfl, PhaseEq.of_eq h ?_⟩
+  simp only [wrap1_matU, wrap1_two, matU_rot h ha, matU_diag h ha, cxM_eq, ha2.qn_cos,
+    ha2.qn_sin, expi_halfPi h ha, expi_neg_halfPi h ha]
+  simp only [ha2.q_cos, ha2.q_sin, matCX_bd, I4_eq]
+  simp only [app2_target, app2_cx']
+  have hp := h.cos_sq_add_sin_sq (Amp.phalf α (Amp.phalf α t))
+  have hI := h.I_mul_I
+  have hc := hh.cos_phalf_twice (Amp.phalf α t)
+  have hs := hh.sin_phalf_twice (Amp.phalf α t)
+  rw [h.cos_padd] at hc
+  rw [h.sin_padd] at hs
+  show _ = Spec.ctrl (specMatrix (.RX t))
+  rw [spec_RX h, ctrl_two]
+  refine bd2_ext ?_ ?_ ?_ ?_ ?_ ?_ ?_ ?_ <;> grind
 
 end lawful
 
